@@ -40,7 +40,7 @@ def strategy(tier):
     def _s(draw):
         case = draw(
             SC.solve_case(
-                families=("nlp", "nlp", "qp", "degenerate", "infeasible", "unbounded", "patternvar", "intbox", "concavebox"),
+                families=("nlp", "nlp", "qp", "degenerate", "infeasible", "unbounded", "patternvar", "intbox", "concavebox", "convexbox", "convexbox"),
                 max_n=4 if tier == "quick" else 6,
                 max_m=3,
                 iteration_limit=150 if tier == "quick" else 300,
@@ -56,7 +56,7 @@ def strategy(tier):
             extra["obj_lower_limit"] = -1e3
         if draw(st.integers(0, 5)) == 0:
             extra["lamb_max"] = 1e4
-        if draw(st.integers(0, 5)) == 0:
+        if draw(st.integers(0, 2)) == 0:
             extra["precision"] = "Single"  # a documented Params option: "precision to be used in all calculations"
         case["params_extra"] = extra
         return case
